@@ -722,10 +722,10 @@ fn corpus(thorough: bool) -> Vec<CaseSpec> {
   );
   // a 12-fragment sample: the frags worker sends 8 per tick
   fixed("twelve_fragments", 1, vec![Write(12), Drop(0), Drop(0), Drop(0), Deliver(9), Deliver(0), Deliver(0), RepairTick]);
-  // more outstanding sequence numbers than the 256 window of an ACKNACK (thorough tier; the quick
-  // tier runs the same pattern with 40).  unsent_changes keeps every pushed SN until it is
+  // more outstanding sequence numbers than the 256 window of an ACKNACK (258 in the quick tier, 300
+  // and 270 mixed in the thorough tier).  unsent_changes keeps every pushed SN until it is
   // acknowledged, so a first repair cycle (all of it lost) has to empty it before the window matters.
-  let nbig = if thorough { 300 } else { 40 };
+  let nbig = if thorough { 300 } else { 258 };
   let mut big = Vec::new();
   for _ in 0..nbig {
     big.push(Write(1));
